@@ -3,7 +3,7 @@ CONSTANTS
   Names = {"a","b","c","d"}
   Stakes = {1,2}
   Limits = {1,2,3,4}
-  Pcts = {0,50,100}
+  Pcts = {0,50}
   Ord1 <- O_abcd
   Ord2 <- O_cadb
   HeadBug = FALSE
